@@ -21,6 +21,7 @@ TLA_CP = "/opt/veriftools/tla/tla2tools.jar:/opt/veriftools/tla/CommunityModules
 # wall-clock budget of one thorough safety run of one L2 module (breadth-first: what is explored is complete up
 # to the depth reached; the evidence says whether the run finished)
 THOROUGH_BUDGET_S = int(os.environ.get("VERIF_TLC_BUDGET_S", "900"))
+EXPORT_CAP = 60000
 
 LIVE_PROPS = ("C01", "C20", "C04", "C05", "C06", "C07", "C08", "C09", "C10", "C11", "C12", "C13", "C14", "C15", "C19")
 
@@ -454,8 +455,15 @@ def run_for_property(prop, tier, seed, plan, env):
         if not r["ok"]:
             raise ToolError("TLC export run failed for %s:\n%s" % (mod, r["out_tail"][-1500:]))
         exported = r["exported"]
-        res["models"].append(dict(module=mod, config=os.path.basename(gcfg), kind="export", states=r["states"], transitions=r["transitions"],
-                                  behaviours_exported=len(exported), secs=r["secs"], reused_from_cache=cached))
+        n_exported = len(exported)
+        gen_states, gen_trans, gen_secs = r["states"], r["transitions"], r["secs"]
+        # keep memory bounded: replay a deterministic sample of at most EXPORT_CAP behaviours per module
+        if len(exported) > EXPORT_CAP:
+            step = len(exported) / float(EXPORT_CAP)
+            exported = [exported[int(i * step)] for i in range(EXPORT_CAP)]
+        r = None
+        res["models"].append(dict(module=mod, config=os.path.basename(gcfg), kind="export", states=gen_states, transitions=gen_trans,
+                                  behaviours_exported=n_exported, behaviours_used=len(exported), secs=gen_secs, reused_from_cache=cached))
         if not exported:
             raise ToolError("no behaviours exported from %s" % mod)
         # ---- 4. replay on the real code --------------------------------------------------
@@ -485,7 +493,7 @@ def run_for_property(prop, tier, seed, plan, env):
             if cap and len(vs) > cap:
                 step = len(vs) / float(cap)
                 vs = [vs[int(i * step)] for i in range(cap)]
-            nsh = max(1, min(6, len(vs) // 2000 + 1))
+            nsh = max(1, len(vs) // 3000 + 1)        # <= 3000 runs per TraceMon JVM
             for sh in range(nsh):
                 part = vs[sh::nsh]
                 tag = "%s_l2_%s_%s_%d" % (prop, mod, b, sh)
@@ -525,7 +533,7 @@ def run_for_property(prop, tier, seed, plan, env):
             return (b, None, "l2", cnt, 0, tag), trace, vf, viols, runs, stats, crashed, ndiff, firstd, nrun
 
         total, drifted = 0, 0
-        with cf.ThreadPoolExecutor(max_workers=max(2, ncpu - 2)) as exr:
+        with cf.ThreadPoolExecutor(max_workers=max(2, min(8, ncpu - 2))) as exr:
             for r in exr.map(do, jobs):
                 job, trace, vf, viols, runs, stats, crashed, ndiff, firstd, nrun = r
                 res["mon_results"].append((job, trace, vf, viols, runs, stats, crashed))
@@ -533,6 +541,9 @@ def run_for_property(prop, tier, seed, plan, env):
                 drifted += ndiff
                 if firstd is not None and len(res["drift"]) < 5:
                     res["drift"].append(dict(module=mod, **firstd))
+        pred.clear()
+        by_build.clear()
+        exported = None
         res["replayed"] += total
         res["conformance"][mod] = dict(vectors=total, identical_to_prediction=total - drifted, drift=drifted,
                                        criterion="accepted by TLC trace validation against the L2 spec" if mod in INEXACT
